@@ -87,7 +87,23 @@ def mk_ctrl(kind: str, t0: float):
     return ctrl
 
 
+# Wall-clock guards: generous (a slow machine must not look like non-termination) until a first case has run into
+# its guard.  From then on the run reports a violation anyway, and the remaining cases get a guard derived from the
+# slowest completed case (x50, at least 60 s; 20 s after three timeouts) so that a code change that makes a whole
+# class of simulations hang costs minutes, not hours.
+_GUARD = {"timeouts": 0, "slowest": 0.0}
+
+
+def _guard_for(guard_s: int) -> int:
+    if _GUARD["timeouts"] == 0:
+        return guard_s
+    if _GUARD["timeouts"] >= 3:
+        return 20
+    return int(min(guard_s, max(60.0, 50.0 * _GUARD["slowest"] + 30.0)))
+
+
 def run_case(cid: str, eq, ctrl, params, start, steps: int, limit: float, guard_s: int = 900) -> dict:
+    import time as _time
     from moptipyapps.dynamic_control import ode
     if ode._VERIF_EVENTS is None:
         raise core.MachineryError("run_ode hook not enabled")
@@ -97,12 +113,15 @@ def run_case(cid: str, eq, ctrl, params, start, steps: int, limit: float, guard_
     rec = {"id": cid, "kind": "run", "n": n, "cdim": 1, "steps": steps, "limit": f64(limit),
            "start": [f64(v) for v in st], "timeout": 0, "rows": [], "ctrl": [], "cycles": []}
     old = signal.signal(signal.SIGALRM, _alarm)
-    signal.alarm(guard_s)
+    signal.alarm(_guard_for(guard_s))
+    t0 = _time.monotonic()
     try:
         with np.errstate(all="ignore"):
             res = ode.run_ode(st.copy(), eq, ctrl, params, 1, steps, limit)
+        _GUARD["slowest"] = max(_GUARD["slowest"], _time.monotonic() - t0)
     except _Timeout:
         rec["timeout"] = 1
+        _GUARD["timeouts"] += 1
         res = None
     finally:
         signal.alarm(0)
